@@ -586,6 +586,15 @@ def monitor(case, obs):
                 if prev is not None and not _contains(prev, b):
                     hits.append(_hit("search-widen", f"bounds widened from {prev} to {b}"))
                     break
+                # C04 for the search as a bounded object (default initial bounds, convergent items): a step that reports
+                # progress has strictly shrunk the interval; it reports none only on a single value
+                if case.get("ib") is None and prev is not None and all(traj_valid(t) for t in case["items"]):
+                    if st[0] is True and b == prev:
+                        hits.append({"prop": "C04", "key": "search:progress-without-shrinking", "what": f"IterativeTighteningSearch over {case['items']}: a step reported progress but the interval stayed {b}"})
+                        break
+                    if st[0] is False and b[0] != b[1]:
+                        hits.append({"prop": "C04", "key": "search:no-progress-on-interval", "what": f"IterativeTighteningSearch over {case['items']}: a step reported no progress while the interval is {b}"})
+                        break
                 prev = b
     elif op == "drain":
         if case.get("ib") is not None:
